@@ -21,7 +21,8 @@ from tcv import scratch
 from tcv.core import HarnessError, Result, Violation, digest
 from tcv.pool import pmap
 
-KEYS = ['k', 'k2', '', 'é/☃ \n', 'K' * 300, '../x', 'a"b\\c', '\x00']
+KEYS = ['k', 'k2', '', 'é/☃ \n', 'K' * 300, '../x', 'a"b\\c', '\x00',
+        'caf\u00e9', 'cafe\u0301', 'K', 'k ', ' k', 'ﬁ', 'fi']   # distinct strings that normalisation / case folding / stripping would identify
 NOV = '<NO_VALUE>'
 
 
@@ -421,8 +422,12 @@ def _keys_values_job(ctype):
                 case = {'kind': 'keys', 'ctype': ctype}
                 res.add('evaluations')
                 res.add('transitions', 3)
-                pre = cc.get(key)
-                r = cc.get_or_compute(key, comp)
+                try:
+                    pre = cc.get(key)
+                    r = cc.get_or_compute(key, comp)
+                except Exception as e:  # noqa  (e.g. "key does not match": the entry of ANOTHER key was found for this one)
+                    res.violations.append(Violation(f'{ctype} cache: keys / sub-caches share entries', f'key {key!r} in {where}, never stored before: {type(e).__name__}: {e}', case))
+                    continue
                 if pre is not NO_VALUE or calls[0] != 1 or not same(r, v):
                     res.violations.append(Violation(f'{ctype} cache: keys / sub-caches share entries', f'key {key!r} in {where}: before {pre!r}, calls {calls[0]}, returned {_show(r)} expected {_show(v)}', case))
                 stored[(where, key)] = v
@@ -430,13 +435,17 @@ def _keys_values_job(ctype):
         c2 = make_cache(ctype, d)
         for (where, key), v in stored.items():
             cc = c2 if where == 'main' else c2.subcache('s')
-            g = cc.get(key)
             n = [0]
 
             def recomputed():
                 n[0] += 1
                 return v
-            r = cc.get_or_compute(key, recomputed)
+            try:
+                g = cc.get(key)
+                r = cc.get_or_compute(key, recomputed)
+            except Exception as e:  # noqa
+                res.violations.append(Violation(f'{ctype} cache: stored value does not round-trip', f'key {key!r} in {where}: {type(e).__name__}: {e}', {'kind': 'keys', 'ctype': ctype}))
+                continue
             res.add('evaluations')
             res.add('distinct_nontrivial')
             if n[0]:
